@@ -373,11 +373,12 @@ class Policy:
         self.ws_blank_lines = False if plain else rng.random() < 0.4
         self.extra_orphans = False if plain else rng.random() < 0.4
         self.hash_space = True
+        self.leading_blank = False if plain else rng.random() < 0.3   # empty lines above the header comment of a section
         for k, v in force.items():
             setattr(self, k, v)
 
     def name(self):
-        return ",".join(k for k in ("crlf", "final_newline", "wide", "trailing", "ws_blank_lines", "extra_orphans") if getattr(self, k)) or "plain"
+        return ",".join(k for k in ("crlf", "final_newline", "wide", "trailing", "ws_blank_lines", "extra_orphans", "leading_blank") if getattr(self, k)) or "plain"
 
     def sepR(self):
         return self.rng.choice([" ", "  ", "\t", " \t ", "    "]) if self.wide else " "
@@ -439,6 +440,9 @@ def render(desc, policy: Policy, ending=None):
     for si, sec in enumerate(desc["sections"]):
         if si == 1:
             lines.append(p.stmt_line(["---" + ("-" * p.rng.randrange(0, 4) if p.wide else "")], None))
+        if p.leading_blank and p.rng.random() < 0.7:
+            for _ in range(p.rng.choice([1, 1, 2])):
+                lines.append(p.blank())
         for c in sec["header"]:
             lines.append(p.comment(c))
         if sec["header"] and sec["header_sep"] == "blank":
